@@ -342,6 +342,9 @@ class Bounds:
             return None
         if k == "deref":
             return self.ub(e[1], seen, depth + 1, at)
+        if k == "index":
+            # an element of a table: bounded by everything that is ever stored into the table
+            return self.elem_ub(e[1], depth + 1)
         if k == "field" and isinstance(e[1], tuple) and e[1][0] == "local" and str(e[2]).isdigit():
             # component of a tuple-valued local assigned in several branches
             if e[1][1] in seen:
@@ -383,6 +386,71 @@ class Bounds:
                 return b
             return self.arg_bound(e[1], depth)
         return None
+
+    def elem_ub(self, e, depth):
+        """Upper bound of every element reachable inside the aggregate value `e` (an array, possibly wrapped in structs /
+        Options): max over everything that is stored into it, in this body or in the closure that builds it."""
+        if depth > 30:
+            return None
+        while isinstance(e, tuple) and e and e[0] in ("index", "field", "downcast", "deref", "ref", "cast"):
+            e = e[2] if e[0] == "cast" else e[1]
+        if e[0] == "local":
+            return self.stores_ub(e[1], depth + 1)
+        if e[0] == "call":
+            clo = [a for a in e[2] if isinstance(a, tuple) and a and a[0] == "closure"]
+            nm = str(e[1])
+            if clo and (nm.endswith("bool>::then") or nm.endswith("Option::<T>::map") or nm.endswith("::unwrap_or_else") or nm.endswith("::get_or_insert_with")):
+                from common import get_fn as _get_fn
+                cf = _get_fn(self.ctx.facts, self.fn.b["crate"], clo[0][1])
+                sub = Bounds(self.ctx, cf, self.maxb, in_region=self.in_region, max_needle=self.max_needle)
+                return sub.stores_ub(0, depth + 1)
+        return None
+
+    def stores_ub(self, l, depth, seen=frozenset()):
+        if depth > 30 or l in seen:
+            return None if depth > 30 else CYC
+        fn = self.fn
+        best = None
+        n = 0
+        for bi in sorted(fn.live):
+            for si, s_ in enumerate(fn.blocks[bi]["stmts"]):
+                if s_.get("k") != "assign" or s_["lhs"]["l"] != l:
+                    continue
+                n += 1
+                rv = s_["rv"]
+                vals = []
+                if s_["lhs"]["p"]:
+                    vals.append(self.ub(fn.expr_of_rvalue(rv), frozenset(), depth + 1, bi))
+                elif "repeat" in rv:
+                    pl = rv["repeat"].get("move") or rv["repeat"].get("copy")
+                    if pl is not None and not pl["p"]:
+                        vals.append(self.stores_ub(pl["l"], depth + 1, seen | {l}))
+                    else:
+                        vals.append(self.ub(fn.expr_of_operand(rv["repeat"]), frozenset(), depth + 1, bi))
+                elif rv.get("agg") is not None:
+                    for o in rv.get("ops", []):
+                        pl = o.get("move") or o.get("copy")
+                        if pl is not None and not pl["p"] and ("[" in str(fn.b["locals"][pl["l"]]["ty"]) or "Table" in str(fn.b["locals"][pl["l"]]["ty"])):
+                            vals.append(self.stores_ub(pl["l"], depth + 1, seen | {l}))
+                        else:
+                            vals.append(self.ub(fn.expr_of_operand(o), frozenset(), depth + 1, bi))
+                elif isinstance(rv.get("use"), dict):
+                    pl = rv["use"].get("move") or rv["use"].get("copy")
+                    if pl is not None and not pl["p"]:
+                        vals.append(self.stores_ub(pl["l"], depth + 1, seen | {l}))
+                    else:
+                        vals.append(self.ub(fn.expr_of_operand(rv["use"]), frozenset(), depth + 1, bi))
+                else:
+                    return None
+                for v in vals:
+                    if v is None:
+                        return None
+                    if v != CYC:
+                        best = v if best is None else max(best, v)
+            t = fn.blocks[bi]["term"]
+            if t["k"] == "call" and t["dest"]["l"] == l:
+                return None
+        return best if n else None
 
     def arg_bound(self, argl, depth):
         """Interprocedural: bound of a parameter of a crate-private function = max over all call sites."""
@@ -516,14 +584,50 @@ def rule_bonus_args(ctx):
         fn = fn_of(b)
         loops = for_loops(fn)
         k = 0
+        sites_ = []
         for bi, t in fn.calls(lambda t: callee(t).endswith("::bonus_for")):
+            sites_.append((bi, fn.expr_of_operand(t["args"][2]), fn.expr_of_operand(t["args"][1]), t))
+        # a bonus read from a per-call table `table[prev as usize][class as usize]` stands for bonus_for(prev, class)
+        seen_reads = set()
+        for bi in sorted(fn.live):
+            for si, s_ in enumerate(fn.blocks[bi]["stmts"]):
+                if s_.get("k") != "assign":
+                    continue
+                e = fn.expr_of_rvalue(s_["rv"])
+                for x in walk(e):
+                    if x[0] == "index" and isinstance(x[1], tuple) and x[1][0] == "index":
+                        i_, j_ = strip_casts(x[1][2]), strip_casts(x[2])
+                        if i_[0] == "discr" and j_[0] == "discr" and "CharClass" in str(i_[2:]) and repr(x) not in seen_reads:
+                            seen_reads.add(repr(x))
+                            sites_.append((bi, j_[1], i_[1], None))
+        for bi, cls, prev, t in sites_:
             n += 1
             k += 1
             key = "%s|bonus-args|%d" % (fn.path, k)
-            cls = fn.expr_of_operand(t["args"][2])
-            prev = fn.expr_of_operand(t["args"][1])
             if cls[0] == "arg" and prev[0] == "arg":
                 ctx.ok(site(fn, bi), "pass-through wrapper")
+                continue
+            # filling a table over all pairs of classes: bonus_for(p, c) for p, c enumerated from a constant array of
+            # CharClass, stored at [p as usize][c as usize]
+            def enumerated(e_):
+                return any(x[0] == "call" and str(x[1]).endswith("::next") and "array" in str(x[1]) for x in walk(e_))
+            if t is not None and enumerated(cls) and enumerated(prev):
+                dl = t["dest"]["l"]
+                stored = None
+                for b2 in sorted(fn.live):
+                    for s2 in fn.blocks[b2]["stmts"]:
+                        if s2.get("k") == "assign" and len([p_ for p_ in s2["lhs"]["p"] if isinstance(p_, dict) and "index" in p_]) == 2 and \
+                                any(x[0] == "call" and len(x) > 4 and x[4] == (bi, dl) for x in walk(fn.expr_of_rvalue(s2["rv"]))):
+                            ix = [p_["index"] for p_ in s2["lhs"]["p"] if isinstance(p_, dict) and "index" in p_]
+                            e1, e2 = strip_casts(fn.expr_of_local(ix[0])), strip_casts(fn.expr_of_local(ix[1]))
+                            if e1[0] == "discr" and e2[0] == "discr" and repr(strip_casts(e1[1])) == repr(strip_casts(prev)) and repr(strip_casts(e2[1])) == repr(strip_casts(cls)):
+                                stored = True
+                            else:
+                                stored = False
+                if stored:
+                    ctx.ok(site(fn, bi), "table fill: table[p][c] = bonus_for(p, c) for every pair of classes")
+                else:
+                    ctx.violation(key + "|table-fill", site(fn, bi), "bonus_for over enumerated classes is not stored at [prev][class] of a table (transposed or partial table)")
                 continue
             # ---- class of the candidate character
             exprs = [cls]
@@ -783,7 +887,14 @@ def rule_live_config(ctx):
     r(ctx)
 
 
+def rule_fold_lookup(ctx):
+    """The re-scoring walk and the window search see the same characters only if to_lower_case / is_upper_case are exactly the fold-table lookup (shared with C16.dispatch)."""
+    from props.c16 import rule_dispatch as r
+    r(ctx)
+
+
 def rules(ctx):
+    ctx.run_rule("C03.fold-lookup", rule_fold_lookup)
     ctx.run_rule("C03.live-config", rule_live_config)
     ctx.run_rule("C03.cell-equations", rule_cell_equations)
     ctx.run_rule("C03.constants", rule_constants)
